@@ -199,7 +199,7 @@ func head(s string, n int) string {
 func crashKey(stderr string) string {
 	for _, l := range strings.Split(stderr, "\n") {
 		l = strings.TrimSpace(l)
-		if i := strings.Index(l, "/src/"); i >= 0 && strings.Contains(l, ".go:") && (strings.HasPrefix(l, "/repo/") || strings.Contains(l, "gogreement/src/")) {
+		if i := strings.Index(l, "/src/"); i >= 0 && strings.Contains(l, ".go:") && (strings.HasPrefix(l, repoDir()+"/") || strings.Contains(l, "gogreement/src/")) {
 			l = l[i+1:]
 			if j := strings.Index(l, " "); j >= 0 {
 				l = l[:j]
